@@ -5,6 +5,7 @@ Low-level functions for arbitrary-precision floating-point arithmetic.
 __docformat__ = 'plaintext'
 
 import math
+import os
 
 from bisect import bisect
 
@@ -283,6 +284,24 @@ if STRICT:
 else:
     normalize = _normalize
     normalize1 = _normalize1
+
+# Verification hook (off unless MPMATH_VERIF=1): count calls of the rounding
+# primitive and raise an injected fault at a chosen call number, so that
+# checkers can test behaviour when an internal computation fails.
+if os.environ.get('MPMATH_VERIF') == '1':
+    class VerifInjectedFault(RuntimeError):
+        pass
+    verif_state = {'count': 0, 'fault_at': int(os.environ.get('MPMATH_VERIF_FAULT_AT', '0'))}
+    def _verif_wrap(f):
+        def wrapped(sign, man, exp, bc, prec, rnd):
+            st = verif_state
+            st['count'] += 1
+            if st['count'] == st['fault_at']:
+                raise VerifInjectedFault("injected fault at primitive call %d" % st['count'])
+            return f(sign, man, exp, bc, prec, rnd)
+        return wrapped
+    normalize = _verif_wrap(normalize)
+    normalize1 = _verif_wrap(normalize1)
 
 #----------------------------------------------------------------------------#
 #                            Conversion functions                            #
